@@ -19,7 +19,7 @@ def run(ctx):
         "inspect_tx_commit identically: A3).")
     R.trusted = ["rustc resolution/MIR (A1)", "revm's non-committing and committing entry points execute identically (A3)"]
     em = ER.engine_methods(F)
-    ge = F.fn_opt("engine::evm::get_evm")
+    ge = F.inlined(F.fn_opt("engine::evm::get_evm"))
     sites = {}
     for name in ("add_tx_to_block", "read_contract", "read_contract_multi"):
         top = em[name]
